@@ -1,5 +1,7 @@
 import WhatIs.Model.Jwt
+import WhatIs.Model.Json
 import WhatIs.Lemmas.Jwt
+import WhatIs.Lemmas.Json
 /-
   Props/C18.lean — PROPERTY THEOREMS for C18 (JWTs are recognised structurally and their registered fields shown
   faithfully).  `json` (the behaviour of encoding/json) is universally quantified; `data`, objects, values
@@ -124,5 +126,83 @@ example : isJWT sampleJson (strBytes "bnVsbA.bnVsbA.c2ln") = false := by decide
 example : payloadAttributes [(strBytes "kid", .str (strBytes "k1")), (strBytes "sub", .str (strBytes "bob"))] = [⟨strBytes "Subject", strBytes "bob"⟩] ∧
     headerAttributes [(strBytes "typ", .str (strBytes "JWT")), (strBytes "kid", .str (strBytes "k1"))] =
       [⟨strBytes "Type", strBytes "JWT"⟩, ⟨strBytes "Key Id", strBytes "k1"⟩] := by decide
+
+-- JSON FROM THE BYTES: `encoding/json` as a concrete function (Model/Json.lean) ---------------------------------
+open WhatIs.Spec.JsonText WhatIs.Lemmas.Json in
+/-- H-json IS A THEOREM for written objects: the text the RFC 8259 writer (Spec/JsonText.lean) produces for ANY list of
+    members — names and string values any sequences of Unicode scalar values (quotation mark, reverse solidus and
+    control characters escaped, everything else as UTF-8), integer values of any size — is read by the model of
+    `unmarshalObject` as exactly those members, assigned in the order written (a repeated name replaces the earlier one) -/
+theorem json_object_readback (ms : List (List Nat × Val)) (hok : ∀ x ∈ ms, MemberOk x) :
+    Json.doc (objectText ms) = .obj (assignAll [] ms) := doc_objectText ms hok
+
+open WhatIs.Spec.JsonText WhatIs.Lemmas.Json in
+/-- with pairwise distinct names: the members as written, in order, strings as their UTF-8 text, integers exact -/
+theorem json_members_in_order (ms : List (List Nat × Val)) (hok : ∀ x ∈ ms, MemberOk x)
+    (hn : (ms.map fun m => encodeRunes m.1).Nodup) :
+    Json.doc (objectText ms) = .obj (ms.map fun m => (encodeRunes m.1, encVal m.2)) := by
+  rw [doc_objectText ms hok, assignAll_nodup ms [] (by simpa using hn)]; simp
+
+open WhatIs.Spec.JsonText WhatIs.Lemmas.Json in
+/-- every scalar value survives the string reader: escapes are resolved, UTF-8 is passed through octet for octet -/
+theorem json_string_readback (rs : List Nat) (hs : ∀ r ∈ rs, Scalar r) (rest : Bytes) :
+    Json.string (quoted rs ++ rest) = some (encodeRunes rs, rest) := string_quoted rs hs rest
+
+open WhatIs.Spec.JsonText WhatIs.Lemmas.Json in
+/-- REGISTERED FIELD FROM THE TEXT OF THE OBJECT: a registered string-valued name written anywhere in an object (among
+    any other members with distinct names) is shown with exactly the UTF-8 text of its value — the JSON reader is the
+    concrete model, not a hypothesis -/
+theorem registered_from_text (order : List String) (ms : List (List Nat × Val)) (hok : ∀ x ∈ ms, MemberOk x)
+    (hn : (ms.map fun m => encodeRunes m.1).Nodup) (k descr : String) (rs : List Nat)
+    (hk : k ∈ order) (hp : paramOf k = some (descr, "str")) (hascii : ∀ c ∈ k.toList.map Char.toNat, c < 128)
+    (hm : (k.toList.map Char.toNat, Val.str rs) ∈ ms) :
+    ∃ kv, Json.doc (objectText ms) = .obj kv ∧
+      (⟨descr.toList.map Char.toNat, encodeRunes rs⟩ : Attr) ∈ attributesOfIn order kv := by
+  obtain ⟨kv, hd, hl⟩ := doc_lookup ms hok hn _ hascii _ hm
+  exact ⟨kv, hd, registered_readback order kv k descr _ hk hp hl⟩
+
+open WhatIs.Spec.JsonText WhatIs.Lemmas.Json in
+/-- NUMERIC DATE FROM THE TEXT OF THE OBJECT: `"exp":<integer>` of magnitude below 2^62 is shown as that UTC second -/
+theorem numeric_date_from_text (order : List String) (ms : List (List Nat × Val)) (hok : ∀ x ∈ ms, MemberOk x)
+    (hn : (ms.map fun m => encodeRunes m.1).Nodup) (k descr : String) (n : Int) (hr : n.natAbs < 2 ^ 62)
+    (hk : k ∈ order) (hp : paramOf k = some (descr, "unixTime")) (hascii : ∀ c ∈ k.toList.map Char.toNat, c < 128)
+    (hm : (k.toList.map Char.toNat, Val.int n) ∈ ms) :
+    ∃ kv, Json.doc (objectText ms) = .obj kv ∧
+      (⟨descr.toList.map Char.toNat, Civil.fmtDateTime n⟩ : Attr) ∈ attributesOfIn order kv := by
+  obtain ⟨kv, hd, hl⟩ := doc_lookup ms hok hn _ hascii _ hm
+  exact ⟨kv, hd, numeric_dates order kv k descr n hr hk hp hl⟩
+
+-- what the reader refuses, and the corners of `unquote` (witnesses, by evaluation) ---------------------------------
+section witnesses
+open WhatIs.Spec.JsonText
+private def isObj : JDoc → Option (List (Bytes × JVal))
+  | .obj kv => some kv
+  | _ => none
+private def isBad : JDoc → Bool
+  | .bad => true
+  | _ => false
+set_option maxRecDepth 100000
+/-- the writer's text of a two-member object, and its reading -/
+example : objectText [(strBytes "sub", .str [34, 233, 10]), (strBytes "exp", .int (-5))] =
+    strBytes "{\"sub\":\"\\\"" ++ [0xC3, 0xA9] ++ strBytes "\\u000a\",\"exp\":-5}" := by decide
+example : isObj (Json.doc (objectText [(strBytes "sub", .str [34, 233, 10]), (strBytes "exp", .int (-5))])) =
+    some [(strBytes "sub", .str [34, 0xC3, 0xA9, 10]), (strBytes "exp", .num (-5))] := by decide
+/-- a repeated name: the last member wins -/
+example : isObj (Json.doc (strBytes "{\"a\":\"1\",\"b\":2,\"a\":\"3\"}")) =
+    some [(strBytes "b", .num 2), (strBytes "a", .str (strBytes "3"))] := by decide
+/-- a surrogate pair is combined; a lone surrogate and an octet that is not UTF-8 become U+FFFD -/
+example : isObj (Json.doc (strBytes "{\"k\":\"\\ud83d\\ude00\"}")) = some [(strBytes "k", .str [0xF0, 0x9F, 0x98, 0x80])] := by decide
+example : isObj (Json.doc (strBytes "{\"k\":\"\\ud83dx\"}")) = some [(strBytes "k", .str [0xEF, 0xBF, 0xBD, 120])] := by decide
+example : isObj (Json.doc (strBytes "{\"k\":\"" ++ [0xC3] ++ strBytes "\"}")) = some [(strBytes "k", .str [0xEF, 0xBF, 0xBD])] := by decide
+/-- numbers: the floor, exactly; an exponent beyond what `big.Rat` takes is "something else" -/
+example : isObj (Json.doc (strBytes "{\"a\":-1.5,\"b\":1.7e9,\"c\":9007199254740993,\"d\":1e-3,\"e\":[1e2000000]}")) =
+    some [(strBytes "a", .num (-2)), (strBytes "b", .num 1700000000), (strBytes "c", .num 9007199254740993),
+          (strBytes "d", .num 0), (strBytes "e", .other)] := by decide +kernel
+/-- refused: null, other values, data after the value, a trailing comma, a raw control character, a leading zero -/
+example : (["null", "[]", "\"s\"", "5", "{} x", "{}{}", "{\"a\":1,}", "{\"a\":\"\n\"}", "{\"a\":01}", "{\"a\":tru}", "{a:1}", ""].all
+    fun t => match Json.doc (strBytes t) with | .obj _ => false | _ => true) = true := by decide +kernel
+example : isBad (Json.doc (strBytes " {\"a\" : [ 1 , {\"b\":null} ] }\n x")) = true ∧
+    isObj (Json.doc (strBytes " {\"a\" : [ 1 , {\"b\":null} ] }\n ")) = some [(strBytes "a", .other)] := by decide +kernel
+end witnesses
 
 end WhatIs.C18
